@@ -3,6 +3,7 @@
 //! subprocess worker pool for subjects that may crash, hang or poison state.
 
 pub mod engine;
+pub mod fuzz;
 pub mod gen;
 pub mod oracle;
 pub mod props;
